@@ -270,6 +270,9 @@ func (c *ClusterInfo) GetLookupdTopicProducers(topic string, lookupdHTTPAddrs []
 			lock.Lock()
 			defer lock.Unlock()
 			for _, p := range resp.Producers {
+				if p == nil {
+					continue
+				}
 				for _, pp := range producers {
 					if p.HTTPAddress() == pp.HTTPAddress() {
 						goto skip
